@@ -395,7 +395,14 @@ def execute_http(frontend, prefix, template, toks, attrs, audit_paths, colls=(CA
                 for vname, d in vs.items():
                     if d is None:
                         impl.notes.append("C02:view-%s-unavailable" % vname)
-                    elif ref is not None and {k: v for k, v in d.items() if kind != "addressbook" or vname != "query" or not k.startswith("?")} != ref and d != ref:
+                    elif ref is None:
+                        continue
+                    elif vname == "query":
+                        # a query lists the members that match its filter: judge the ETags it shows
+                        bad = {k: v for k, v in d.items() if ref.get(k) != v}
+                        if bad:
+                            impl.notes.append("C02:view-query-disagrees-with-propfind %r vs %r" % (bad, ref))
+                    elif d != ref:
                         impl.notes.append("C02:view-%s-disagrees-with-propfind %r vs %r" % (vname, d, ref))
         for cp in known_colls:
             lines.append("LIST %s | %s" % (enc(cp), impl.list(cp)))
